@@ -30,7 +30,7 @@ PROPS["C20"] = dict(
     rule=("seeded random trees (depth <= 3 quick / 5 thorough, fan-out <= 3, 0-3 fields per map, 0-2 messages, nil vs empty maps, all three "
           "constructors, field/child names from a tiny alphabet with dotted names so that flat keys collide across routes) x 1-6 reads each; "
           "pairs for AddErrorToValidation over nil / typed-nil / pointer error / value error / ValidationError / wrapped ValidationError incl. a "
-          "biased stream with colliding child names. distinct_nontrivial = distinct cases (hashed) with children and >= 2 reads, or an add pair."),
+          "biased stream with colliding child names; one tree in five is a chain of 3-8 child names ending in a node with 2-4 message-carrying children. distinct_nontrivial = distinct cases (hashed) with children and >= 2 reads, or an add pair."),
     level_text=("Proof: flat map = supplied messages (multiset of (dotted key, message), errors and warnings apart), Error() renders each once, reads leave "
                 "the receiver unchanged for every read sequence, AddErrorToValidation contains every message of both arguments — Lean theorems over all "
                 "trees (nested inductive, any depth/fan-out, nil or non-nil maps); tied to validationError.go by differential runs on random trees."),
@@ -115,7 +115,8 @@ PROPS["C11"] = dict(
     rule=("sequential: seeded Push/Pop/Peek/Len/Values histories of 1-120 (quick) / 1-250 (thorough) ops on stacks of initial size 0/1/2/8/64, three streams "
           "(balanced, push-then-drain, pop-heavy/often empty), compared op by op with the heap-array model and with the FIFO-by-id specification; "
           "concurrent (race-detector build): two-popper trials on a one-element stack and G in {2,4,8} goroutines x 20-400 mixed ops with unique values, checked for "
-          "conservation, distinct ids, panics and data-race reports. distinct_nontrivial = distinct sequential histories with >=3 pushes and >=2 non-empty pops + distinct stress configurations."),
+          "conservation, distinct ids, panics and data-race reports; `pushorder` (concurrent pushes, then a sequential drain must follow the ids) and `peeklive` (pushers "
+          "and peekers, nothing popped: every id whose Push has returned must be found). distinct_nontrivial = distinct sequential histories with >=3 pushes and >=2 non-empty pops + distinct stress configurations."),
     level_text=("Proof: the container/heap algorithms (up/down/Push/Pop/Remove/Fix/Init, transcribed) keep the heap property and the multiset and Pop returns a minimum, for every strict weak "
                 "order and every size (termination included); GenericStack over that array refines the FIFO-by-id queue for every history. The concurrent clause is partial: the model "
                 "assumes each method is one critical section (regenerated shape facts, C07) and the race detector + stress runs search for violations."),
@@ -142,7 +143,8 @@ def _wq(pid, title_rule, level_text, extra_tb=()):
                    ([dict(name="wqstress", race=True, shrink=False, independent_lines=True)] if pid in ("C04", "C09", "C14") else []),
         clause_prefixes=[pid + "."],
         rule=("gated scripts of 4-26 (quick) / 4-40 (thorough) stimuli (enqueue with priority/adjust function, release with nil/error, set adjust value, subscribe, receive error, resize, "
-              "dequeue, set priority, stop, break) on queues with W in 1..3 (4), L in 1..4 (5), each case in its own process; after every stimulus the observation (start order, returned "
+              "dequeue, set priority, stop, break — also after one another) on queues with W in 1..3 (4), L in 1..4 (5), options in both orders, priorities from the whole int range in one case "
+              "of seven, adjust functions that differ from the Enqueue priority from the start; adjust storms, SetPriority storms and Stop/Break storms over a backlog; each case in its own process; after every stimulus the observation (start order, returned "
               "Enqueue calls, WorkItems(), errors per subscriber, goroutine wait-state histogram) must equal that of one of the model's quiescent successors (all interleavings of internal "
               "steps explored). " + title_rule + " distinct_nontrivial = distinct scripts (hashed) that reached the full-queue branch, a fan-out, a Dequeue/SetPriority or a Stop/Break."),
         level_text=level_text,
@@ -223,7 +225,9 @@ def _pub(pid, note, level_text):
         clause_prefixes=[pid + "."],
         rule=("gated scripts of 3-12 (quick) / 3-16 (thorough) stimuli (subscribe with buffer 0-3, filter none/even/odd/never, timeout short/long, callbacks; publish; receive; close subscriber; close publication, also twice; "
               "sleep past the short timeout) on <= 4 subscribers, each case in its own process; after every stimulus buffer lengths, values received, callbacks and the number of pending delivery goroutines must equal those of "
-              "one of the model's quiescent successors. " + note + " Plus ungated race-detector stress: 1-4 publishers x 1-5 subscribers x 10-120 unique messages with closers racing. "
+              "one of the model's quiescent successors. " + note + " Plus ungated race-detector stress: 1-4 publishers x 1-5 subscribers x 10-220 unique messages with subscriber closers and Publication.Close racing, "
+              "late subscribers (Subscribe while the publishers run, a marker published right after must arrive), no-wait subscribers (timeout 0), self-closing subscribers (OnTimeout closes them), "
+              "300 reject-all padding subscribers in every second round; and subscriber churn (Subscribe, publish a marker, receive it, Close x 3000 / 60000 while four goroutines publish). "
               "distinct_nontrivial = distinct scripts (hashed) with a pending delivery or a close + distinct stress configurations."),
         level_text=level_text,
         level_note="Trusted: Lean kernel; the hand-written LTS of publication.go; correspondence at quiescent granularity; real timers and goroutine exit are observed, not proved.",
@@ -250,21 +254,22 @@ _SRV_TB = TB_COMMON + [
 PROPS["C17"] = dict(
     components=[dict(name="server", shrink_lists=False, shrink=False)],
     clause_prefixes=["C17.", "C18.start_returns_and_reachable", "C18.stop_complete"],
-    rule=("30 (quick) / 600 (thorough) generated configurations on real loopback listeners: 0-5 routes per listener (GET/POST/PUT/DELETE, literal paths of 1-3 segments), HTTPS with a self-signed certificate, "
-          "middleware chains of length 0-4 over recording middlewares and LogRequest/LogResponse, gRPC with the repo's example service; every registered route plus a grid of other method/path "
+    rule=("30 (quick) / 600 (thorough) generated configurations on real loopback listeners: 0-5 routes per listener (GET/POST/PUT/DELETE, literal paths of 1-3 segments, a third of them subtree patterns ending in '/'), HTTPS with a self-signed certificate, "
+          "middleware chains of length 0-4 over recording middlewares and LogRequest/LogResponse (the same list bundled twice in every second case), handlers that answer in four legitimate manners "
+          "(plain, 103 Early Hints first, superfluous second WriteHeader, Flush), gRPC with the repo's example service; every registered route plus a grid of other method/path "
           "combinations with bodies of 0 / 5-7 / 65536 bytes; compared: status, handler identity, what the handler saw (method, path, header, body length and hash), echo of the body, enter/leave order. "
           "distinct_nontrivial = distinct configurations that served at least one route."),
     level_text=("Proof for the composition/routing/transparency logic: bundle = nested composition for every list length, recording traces enter in order / leave in reverse, LogRequest and LogResponse are the identity on "
-                "what the handler sees and the client gets, registered routes dispatch to exactly their handler, everything else is 404/405, each listener installs its own router. Partial: ServeMux beyond literal "
-                "patterns, TLS, HTTP framing and grpc-go are exercised by the loopback runs, not modelled."),
+                "what the handler sees and the client gets, registered routes dispatch to exactly their handler, everything else is 404/405, each listener installs its own router. Partial: ServeMux beyond literal and subtree "
+                "patterns (redirects, wildcards, host patterns), TLS, HTTP framing and grpc-go are exercised by the loopback runs, not modelled."),
     level_note="Trusted: Lean kernel; the small functional model of middleware/routing; real sockets only observed.",
-    trusted_base=_SRV_TB, assumptions=["request paths are clean literal paths; HEAD is not exercised", "handler ids map to status 210+id (clear of 204/205)"],
+    trusted_base=_SRV_TB, assumptions=["request paths are clean literal paths, never a registered subtree pattern minus its slash (net/http redirects those); HEAD is not exercised", "handler ids map to status 210+id (clear of 204/205)"],
 )
 PROPS["C18"] = dict(
     components=[dict(name="lifecycle", shrink_lists=False, shrink=False, independent_lines=True)],
     clause_prefixes=["C18."],
-    rule=("every non-empty subset of {HTTP, HTTPS, gRPC} x in-flight requests {0,1,4} (handlers blocked on a gate until Stop is under way) x Stop context {ample, already expired} x timing {after reachability, "
-          "immediately after Start}: 56 scenarios (x10 repetitions in the thorough tier), each in its own process on real loopback listeners; observed: Start returned promptly, listeners reachable, in-flight "
+    rule=("every non-empty subset of {HTTP, HTTPS, gRPC} x in-flight requests {0,1,4} (HTTP handlers blocked on a gate until Stop is under way, and as many gRPC calls held by a gated service: released under an ample context, to be cut off by Stop under an expired one) x Stop context {ample, already expired} x timing {after reachability, "
+          "immediately after Start}: 56 scenarios (x10 repetitions in the thorough tier), each in its own process on real loopback listeners (port numbers reserved by file locks), half of the immediate ones with a caller-supplied logger that takes 25 ms over the 'Starting' lines; observed: Start returned promptly, listeners reachable, in-flight "
           "responses completed, Stop did not return early (ample), Stop returned, error flag, WaitGroup released, ports bindable again. For every scenario the driver also explores all interleavings of the "
           "lifecycle LTS and checks that every maximal run ends stopped/closed/released and that the observed error flag is one the model can produce. distinct_nontrivial = distinct scenarios."),
     level_text=("Proof of the hand-shake protocol under the stated stdlib contracts: WaitGroup balance (never negative, = started and not returned), no deadlock of Start/Stop for every provider subset and interleaving "
